@@ -314,7 +314,9 @@ func runMinprog(which string, jobs []MinJob) (MinOut, bool, error) {
 	cmd.Stdin = bytes.NewReader(in)
 	var so, se bytes.Buffer
 	cmd.Stdout, cmd.Stderr = &so, &se
-	if err := cmd.Run(); err != nil {
+	var runErr error
+	waitingForChild(func() { runErr = cmd.Run() })
+	if err := runErr; err != nil {
 		return out, true, fmt.Errorf("%s%s: %v; stderr: %s", prefix, which, err, tail(se.String(), 2000))
 	}
 	if err := stdjson.Unmarshal(so.Bytes(), &out); err != nil {
